@@ -168,6 +168,42 @@ Fixpoint assigned (K : nat) (t : tree) (s : N) : ltree :=
       LNode s' (map (fun c => assigned K c s') ch)
   end.
 
+(* --- consistency of the arrays with the forest (a C01-type invariant of the inputs) ---- *)
+(* right_child / left_sib / parent of one node and, recursively, its subtree *)
+Fixpoint links_okb (ta : tree_arrays) (t : tree) : bool :=
+  match t with
+  | Node u _ ch =>
+      (match get (ta_right_child ta) u, get (ta_parent ta) u with
+       | Ok rc, Ok _ =>
+           match chain (S (length (ta_left_sib ta))) (ta_left_sib ta) rc with
+           | Ok l => zlist_eqb l (rev (map tid ch))
+           | _ => false
+           end
+       | _, _ => false
+       end) &&
+      forallb (fun c => match get (ta_parent ta) (tid c) with Ok p => p =? u | _ => false end) ch &&
+      forallb (links_okb ta) ch
+  end.
+
+(* the whole input: the virtual root's links, every subtree, the sample list (no duplicates,
+   every listed node flagged), distinct node ids that fit the arrays *)
+Definition arrays_okb (ta : tree_arrays) (roots : list tree) : bool :=
+  let Nn := zlen (ta_flags ta) in
+  (match get (ta_right_child ta) Nn with
+   | Ok rc => match chain (S (length (ta_left_sib ta))) (ta_left_sib ta) rc with
+              | Ok l => zlist_eqb l (rev (map tid roots))
+              | _ => false
+              end
+   | _ => false
+   end) &&
+  forallb (fun r => match get (ta_parent ta) (tid r) with Ok p => p =? -1 | _ => false end) roots &&
+  forallb (links_okb ta) roots &&
+  nodupb (ta_samples ta) &&
+  forallb (fun s => match get (ta_flags ta) s with Ok f => Z.odd (f / c20_tsk_node_is_sample) | _ => false end)
+          (ta_samples ta) &&
+  nodupb (forest_ids roots) &&
+  (fsize roots <? length (ta_left_child ta))%nat.
+
 (* --- L2 self-consistency: the two facts about the array code that are tied only
    differentially (C20/ArrayProofs.v proves the rest of L2 = L0 from them) ------------- *)
 (* left-to-right postorder of a tree, as tsk_tree_postorder_from produces it *)
@@ -196,6 +232,7 @@ Definition l2_side_conditions (fx : bool) (ta : tree_arrays) (genotypes : list Z
   | Ok (os0, _, _) =>
       match rose_of_arrays ta genotypes, postorder_from_virtual_root ta with
       | Ok roots, Ok nodes =>
+          arrays_okb ta roots &&
           forallb (init_okb fx os0) roots &&
           (match get os0 Nn with Ok x => N.eqb x 0 | _ => false end) &&
           list_eqb Z.eqb nodes (flat_map post_ids roots ++ [Nn]) &&
